@@ -17,6 +17,7 @@ Conforms(e) ==
    /\ ("hdr" \in DOMAIN e) => (e.hdr = c)
    /\ ("side" \in DOMAIN e) => (e.side = c)
    /\ e.accept = c
+   /\ ("ac" \in DOMAIN e) => (e.ac = CodeAcceptsAC(Fixtures[e.desc.cfg], e.desc))
 
 TInit == l = 1 /\ TLCSet(1, 0)
 TNext == /\ l <= Len(TraceLog)
